@@ -669,6 +669,19 @@ func (g *gen) genTypeDef() *TypeDef {
 		g.feat("transitive_typedef")
 	}
 	td.Name = g.typeName()
+	// the same unqualified name may mean something else in an included file
+	// (each file is its own name space): reuse a visible file's typedef name
+	// for a different aliased type now and then
+	if len(saved) > 0 && g.rng.Intn(3) == 0 {
+		f := saved[g.rng.Intn(len(saved))]
+		if tds := g.typedefs[f]; len(tds) > 0 {
+			other := tds[g.rng.Intn(len(tds))]
+			if other.Type.String() != td.Type.String() && g.types.reserve(other.Name) {
+				td.Name = other.Name
+				g.feat("typedef_name_shadows_included_typedef")
+			}
+		}
+	}
 	return td
 }
 
